@@ -188,6 +188,8 @@ func weights(profile string) map[string]int {
 		w["rebuild"], w["snap"], w["write"], w["apply"], w["punch"], w["reopen"], w["delete"], w["setrev"] = 7, 14, 34, 10, 5, 4, 5, 0
 	case "clone":
 		w["clone"], w["snap"], w["write"], w["delete"], w["reopen"], w["setrev"], w["revert"] = 7, 20, 34, 8, 8, 2, 4
+	case "cleaner":
+		w["snap"], w["write"], w["delete"], w["markuser"], w["reopen"], w["apply"], w["punch"], w["revert"], w["resize"] = 34, 40, 3, 5, 4, 6, 4, 0, 0
 	case "modes":
 		w["mode"], w["closeopen"], w["reopen"], w["invalid"], w["setrev"], w["delete"], w["write"] = 12, 8, 8, 8, 5, 6, 30
 	case "counter":
@@ -278,7 +280,7 @@ func generate(rng *rand.Rand, steps int, profile string) ([]string, []string, ma
 				g.feat["dup-snap"] = true
 			}
 			ua := "a"
-			if rng.Intn(2) == 0 {
+			if (profile != "cleaner" && rng.Intn(2) == 0) || (profile == "cleaner" && rng.Intn(5) == 0) {
 				ua = "u"
 				g.feat["user-snap"] = true
 			} else {
@@ -600,6 +602,41 @@ func generate(rng *rand.Rand, steps int, profile string) ([]string, []string, ma
 		g.do("rbend")
 		g.do("open p")
 		g.do("mode RW")
+	}
+	if profile == "cleaner" && g.im.S.Replica() != nil {
+		// the sequence ends with one tick of the REAL background cleaner; in half of the runs the
+		// coalesce step (the sync agent's sfold child) fails
+		if g.mode != "RW" {
+			g.do("mode RW")
+			g.mode = "RW"
+		}
+		for len(g.chain()) < 5 {
+			g.write(rng)
+			g.snapN++
+			g.do(fmt.Sprintf("snap s%d a", g.snapN))
+		}
+		ch := g.chain()
+		ck := ch[len(ch)-1-rng.Intn(2)].name
+		mode := "ok"
+		if rng.Intn(2) == 0 {
+			mode = "fault"
+			g.feat["cleaner-fold-fails"] = true
+		}
+		out := g.im.Exec(fmt.Sprintf("cleaner %s %s", ck, mode))
+		picked := "-"
+		if i := strings.Index(out, "picked="); i >= 0 {
+			picked = out[i+len("picked="):]
+		}
+		// the pick is the environment's answer (the smallest file): it goes into the request line
+		g.lines = append(g.lines, fmt.Sprintf("cleaner %s %s %s", ck, mode, picked))
+		g.outs = append(g.outs, out)
+		g.feat["real-cleaner-tick"] = true
+		if picked != "-" {
+			g.feat["cleaner-picked"] = true
+		}
+		g.do("meta")
+		g.do("imeta")
+		g.do("loc")
 	}
 	if g.im.S.Replica() != nil {
 		g.do("full")
